@@ -118,9 +118,14 @@ def discharge_overflow_add(run, body, site):
     op, l, r = c[1][1], c[1][2], c[1][3]
     if op != "AddWithOverflow":
         return False, "arithmetic `%s` can overflow (panics in builds with overflow checks): %s" % (op, term_s(c[1])), None
+    if _is_len(l) and _is_len(r):
+        return True, "D1: sum of two collection lengths (each <= isize::MAX) cannot exceed usize::MAX: %s" % term_s(c[1]), None
     k = _const_int(r)
     if k is None or not (0 < k <= 65536):
         return False, "addition with a non-constant or large addend can overflow: %s" % term_s(c[1]), None
+    en = _enumerate_index(body, l)
+    if en:
+        return True, "D1: %s where the left operand is the index of an Enumerate over a slice/vec iterator (index < len)" % term_s(c[1]), None
     if _range_next_item(body, l) is not None:
         return True, "D1: %s where the left operand is an item of Range::next (item < end <= MAX)" % term_s(c[1]), None
     sp = _some_payload_of(l, ("core::str::find", "core::str::rfind", "std::iter::Iterator::position", "std::iter::Iterator::rposition"))
@@ -149,12 +154,39 @@ def discharge_overflow_add(run, body, site):
     return False, "addition can overflow and matches no discharge pattern: %s" % term_s(c[1]), None
 
 
+LEN_CALLS = ("std::vec::Vec::len", "core::slice::len", "std::string::String::len", "core::str::len", "std::collections::VecDeque::len",
+             "std::collections::HashMap::len", "std::collections::HashSet::len", "std::collections::BTreeMap::len")
+
+
+def _is_len(t):
+    t = strip(t)
+    return t[0] == "call" and t[1] in LEN_CALLS
+
+
+def _enumerate_index(body, t):
+    t = strip(t)
+    if t[0] == "proj" and t[1][0] == "call" and t[1][1] == "std::iter::Iterator::next":
+        pk = mir._strip_derefs(t[2])
+        sty = self_ty(t[1][3].node).get("s", "")
+        if "std::iter::Enumerate<" in sty and not INFINITE_ITER_RE.search(sty) and len(pk) >= 3 and pk[0] == ("dc", "Some") and pk[-1] == ("i", 0):
+            return True
+    return False
+
+
 def discharge_call(run, body, site):
     """panic-capable call -> (ok, why)"""
     t = site.node
     name = cname(t)
     args = [term_of(body, a) for a in t["args"]]
-    if name == "std::vec::Vec::remove" and len(args) == 2:
+    if name in ("std::vec::Vec::with_capacity", "std::string::String::with_capacity", "std::collections::VecDeque::with_capacity") and len(args) == 1:
+        a = strip(args[0])
+        parts = [a]
+        if a[0] == "binop" and a[1] in ("Add", "AddWithOverflow"):
+            parts = [strip(a[2]), strip(a[3])]
+        if all(_is_len(x) or (_const_int(x) is not None and _const_int(x) < (1 << 20)) for x in parts):
+            return True, "capacity is a (sum of) length(s) of existing collections / a small constant"
+        return False, "with_capacity(%s): capacity not bounded by existing collection sizes" % term_s(a)[:60]
+    if name in ("std::vec::Vec::remove", "std::vec::Vec::swap_remove") and len(args) == 2:
         pos = _some_payload_of(args[1], ("std::iter::Iterator::position",))
         if pos is not None and pos[2]:
             it = strip(pos[2][0])
@@ -166,7 +198,7 @@ def discharge_call(run, body, site):
                     if not muts:
                         return True, "D2: index is the Some payload of Iterator::position over the same vector (%s), no mutation in between" % term_s(strip(args[0]))
                     return False, "Vec::remove index comes from position() but the vector may be mutated in between at %s" % muts
-        return False, "Vec::remove(%s) with an index not proven in bounds" % term_s(args[1])
+        return False, "%s(%s) with an index not proven in bounds" % (name.split("::")[-1], term_s(args[1])[:60])
     if name == "std::ops::Index::index" and len(args) == 2:
         sty = self_ty(t)
         idx = strip(args[1])
